@@ -30,7 +30,7 @@ func init() {
 			"oracle: check exits non-zero iff the library counts >= 1 error and prints every library diagnostic as path:line:char - severity / message; run prints JSON whose postings, txMeta and accountsMeta equal what the library returns for the same inputs (numbers decoded with arbitrary precision), exits non-zero with the library's error message on stderr when the library fails, and the three channels agree; " +
 			"non-trivial = check with >= 1 diagnostic, or run with >= 1 posting / metadata entry / an error; distinct = script text + inputs + channel",
 		Assumptions: []string{"the JSON field names postings/txMeta/accountsMeta/source/destination/amount/asset of the pinned tree are the interface", "each case is one process of the binary built from the current tree (bin/prebuild-C20)"},
-		QuickBudget: 80 * time.Second,
+		QuickBudget: 240 * time.Second,
 		ThoroBudget: 12 * time.Minute,
 		Run:         runC20,
 	})
